@@ -32,6 +32,7 @@ class NonFinite(FloatingPointError):
 OPTS = {
     'feas_timeout_ms': 10000,   # per feasibility query
     'abs_fork': True,           # abs() forks (True) or becomes an If-term
+    'family_budget_s': None,    # default wall budget of one explore() call
 }
 
 
@@ -139,6 +140,8 @@ def explore(fn, maxpaths=100000, logic='QF_NRA', budget_s=None):
     prefix = []
     n = 0
     t0 = time.time()
+    if budget_s is None:
+        budget_s = OPTS.get('family_budget_s')
     while True:
         ctx = Ctx(prefix, logic)
         Ctx.cur = ctx
